@@ -59,6 +59,11 @@ impl Rng {
         v.truncate(n);
         v
     }
+    /// random bytes of a random length in lo..=hi
+    pub fn rbytes(&mut self, lo: i64, hi: i64) -> Vec<u8> {
+        let n = self.range(lo, hi) as usize;
+        self.bytes(n)
+    }
     pub fn fork(&mut self) -> Self {
         Self::new(self.u64())
     }
